@@ -487,11 +487,16 @@ def rule_bl(ctx):
         if isinstance(n, ast.ExceptHandler) and n.type is not None and 'IndexError' in A.src(n.type):
             for m in A.walk_stmts(n.body):
                 if isinstance(m, ast.If):
-                    kind, ats = A.atoms(m.test)
+                    in_body = any(isinstance(x, ast.Raise) and x.exc is None for x in m.body)
+                    in_else = any(isinstance(x, ast.Raise) and x.exc is None for x in m.orelse)
+                    if in_body == in_else:
+                        continue
+                    # condition under which the bare raise happens
+                    kind, ats = A.atoms(m.test, negated=in_else)
                     z = any(len(a) == 3 and a[2] is not None and a[1] == '==' and 0 in (A.int_value(a[0]), A.int_value(a[2]))
                             for a in ats)
                     d = any(len(a) == 3 and a[1] == 'truthy' and A.is_self_attr(a[0], 'drop_last') for a in ats)
-                    if kind == 'or' and z and d and any(isinstance(x, ast.Raise) and x.exc is None for x in m.body):
+                    if kind == 'or' and z and d:
                         ok_exc = True
     rep.ob('BL', K.key(cls, '__getitem__', 'short-batch-only-without-drop_last'), ok_exc, g,
            '' if ok_exc else 'an IndexError inside the batch window must propagate for the first element and '
